@@ -261,6 +261,19 @@ func genHistory(g *common.Gen, r *common.Rand) {
 		alpha = []enc.Component{cx, cy, comp("a")}
 		g.Stat("history-hash-colliding-names")
 	}
+	// one history in ten: header-boundary twins — a component whose type is 253 (the first number that needs the
+	// three-byte form) and the component its bytes WOULD spell if that type were written in one byte
+	// (fd 04 01 02 61 62 = type 0x0401, length 2, "ab"): a trie keyed by a sloppy encoding merges the two
+	if !twins && r.Chance(1, 10) {
+		twins = true
+		alpha = []enc.Component{
+			{Typ: 253, Val: []byte{1, 2, 'a', 'b'}},
+			{Typ: 0x0401, Val: []byte("ab")},
+			{Typ: 255, Val: []byte{0, 0, 0, 0, 0, 0, 4, 1, 1, 'b'}},
+			comp("a"),
+		}
+		g.Stat("history-header-boundary-twins")
+	}
 	// every fourth history runs on the engine's test clock (std/engine/dummy.Timer) instead of the
 	// real timer: the clock moves only with the ops, so ops can stand EXACTLY on a timer instant
 	dummyClock := r.Chance(1, 4)
